@@ -126,17 +126,18 @@ func TestSeatHistories(t *testing.T) {
 // ---------------------------------------------------------------------------
 
 type betweenCase struct {
-	Max      int    `json:"max"`
-	Seated   []int  `json:"seated"`              // seats taken (joined and sat in) before the first hand
-	Nexts    int    `json:"nexts"`               // hands played before the newcomer arrives
-	Newcomer int    `json:"newcomer"`            // index into the candidate seats strictly between dealer and bb
-	Seat     int    `json:"seat"`                // the seat chosen (filled in by the run)
-	Ghosts   int    `json:"ghosts,omitempty"`    // players who took that seat and left again before the newcomer came
-	GhostSat bool   `json:"ghost_sat,omitempty"` // ... and had sat in
-	Visits   []int  `json:"visits,omitempty"`    // per following hand: another empty seat that somebody tries and leaves again (-1 = nobody)
-	Sitters  []int  `json:"sitters,omitempty"`   // seats of players who have joined before the first hand but sit out ...
-	SitAt    []int  `json:"sit_at,omitempty"`    // ... and sit in before that hand after the newcomer's arrival (-1 = never)
-	Trace    string `json:"trace,omitempty"`
+	Max       int    `json:"max"`
+	Seated    []int  `json:"seated"`               // seats taken (joined and sat in) before the first hand
+	Nexts     int    `json:"nexts"`                // hands played before the newcomer arrives
+	Newcomer  int    `json:"newcomer"`             // index into the candidate seats strictly between dealer and bb
+	Seat      int    `json:"seat"`                 // the seat chosen (filled in by the run)
+	Ghosts    int    `json:"ghosts,omitempty"`     // players who took that seat and left again before the newcomer came
+	GhostSat  bool   `json:"ghost_sat,omitempty"`  // ... and had sat in
+	Visits    []int  `json:"visits,omitempty"`     // per following hand: another empty seat that somebody tries and leaves again (-1 = nobody)
+	Sitters   []int  `json:"sitters,omitempty"`    // seats of players who have joined before the first hand but sit out ...
+	SitAt     []int  `json:"sit_at,omitempty"`     // ... and sit in before that hand after the newcomer's arrival (-1 = never)
+	HeldSeats bool   `json:"held_seats,omitempty"` // the table holds (reserves) its empty seats before anybody sits down
+	Trace     string `json:"trace,omitempty"`
 }
 
 func runBetween(c *betweenCase) (v *vlib.Violation, valid bool) {
@@ -157,6 +158,14 @@ func runBetween(c *betweenCase) (v *vlib.Violation, valid bool) {
 		}
 		m.Seat(s)
 		taken[s] = true
+	}
+	if c.HeldSeats {
+		// an empty seat that carries the reserved flag is an empty seat all the same
+		for s := 0; s < c.Max; s++ {
+			if !taken[s] {
+				m.Reserve(s)
+			}
+		}
 	}
 	// players who keep their seat but sit out (and come back later): they stay put too
 	for _, s := range c.Sitters {
@@ -302,6 +311,7 @@ func TestNewcomerBetween(t *testing.T) {
 		if rapid.IntRange(0, 2).Draw(rt, "visitors") == 0 {
 			c.Visits = rapid.SliceOfN(rapid.IntRange(-1, c.Max-1), 0, 2*c.Max).Draw(rt, "visits")
 		}
+		c.HeldSeats = rapid.IntRange(0, 3).Draw(rt, "heldSeats") == 0
 		if k < c.Max-1 && rapid.IntRange(0, 2).Draw(rt, "sitters") == 0 {
 			rest := rapid.Permutation(all).Draw(rt, "sitterSeats")
 			n := rapid.IntRange(1, 2).Draw(rt, "nSitters")
@@ -323,7 +333,7 @@ func TestNewcomerBetween(t *testing.T) {
 		if valid {
 			st.Class("valid-in-between-seat")
 			st.ClassIf(len(c.Sitters) > 0, "sat-out-player-returns")
-			st.NonTrivial(vlib.Hash(c.Max, c.Seated, c.Nexts, c.Seat, c.Ghosts, c.GhostSat, c.Visits, c.Sitters, c.SitAt))
+			st.NonTrivial(vlib.Hash(c.Max, c.Seated, c.Nexts, c.Seat, c.Ghosts, c.GhostSat, c.Visits, c.Sitters, c.SitAt, c.HeldSeats))
 			st.ClassIf(c.Ghosts > 0, "seat-tried-and-left-before")
 			st.Sample(c)
 		}
